@@ -807,9 +807,16 @@ func (cc *Conn) handleReq(w *responsewriter.ResponseWriter[*Conn], req *pool.Mes
 	reqMid := req.MessageID()
 
 	// The same message ID can not be handled concurrently
-	// for deduplication to work
-	l := cc.msgIDMutex.Lock(reqMid)
-	defer l.Unlock()
+	// for deduplication to work. Only the peer's confirmable and non-confirmable
+	// messages are deduplicated by message ID (see checkResponseCache): an
+	// acknowledgement or a reset carries a message ID of OUR numbering, which is
+	// unrelated to the IDs of the peer's messages. It must not wait for the handler
+	// of a request of the peer that happens to have the same ID - that handler may
+	// be waiting for this very response.
+	if req.Type() == message.Confirmable || req.Type() == message.NonConfirmable {
+		l := cc.msgIDMutex.Lock(reqMid)
+		defer l.Unlock()
+	}
 
 	if ok, err := cc.checkResponseCache(req, w); err != nil {
 		cc.closeConnection()
